@@ -236,7 +236,9 @@ func (e *Engine) verifyUnit(name string) (err error) {
 			env := &Env{e: e, st: st, old: st, fr: fr, pkg: fn.Pkg.Pkg, names: e.bindParams(fn, fn.Signature, args)}
 			t, err := e.EvalBool(env, cl.E)
 			if err != nil {
-				return fmt.Errorf("requires %s of %s: %v", cl.Label, name, err)
+				// the contract talks about something the code no longer has: reported as contract-target-missing
+				e.specErrs = append(e.specErrs, fmt.Sprintf("%s: requires %s: %v", name, cl.Label, err))
+				continue
 			}
 			st.assume(t)
 		}
@@ -267,6 +269,9 @@ func (e *Engine) verifyUnit(name string) (err error) {
 		}
 		if ct != nil {
 			ret := o.ret
+			if os.Getenv("GOVC_DEBUG_RET") != "" {
+				fmt.Fprintf(os.Stderr, "return value: %v\n", ret.L)
+			}
 			for _, cl := range ct.Ensures {
 				if !e.wantTags(cl.Tags) {
 					continue
